@@ -560,7 +560,7 @@ func (d *urlValuesDecoder) parseArray(raw []string, sm *openapi3.SerializationMe
 	var value []any
 
 	for i, v := range raw {
-		item, err := d.parseValue(v, schemaRef.Value.Items)
+		item, err := parseValue(v, schemaRef.Value.Items)
 		if err != nil {
 			if v, ok := err.(*ParseError); ok {
 				return nil, &ParseError{path: []any{i}, Cause: v}
@@ -578,12 +578,13 @@ func (d *urlValuesDecoder) parseArray(raw []string, sm *openapi3.SerializationMe
 	return value, nil
 }
 
-func (d *urlValuesDecoder) parseValue(v string, schema *openapi3.SchemaRef) (any, error) {
+// parseValue reads one element of an array: by the members of a composition, else as a primitive.
+func parseValue(v string, schema *openapi3.SchemaRef) (any, error) {
 	if len(schema.Value.AllOf) > 0 {
 		var value any
 		var err error
 		for _, sr := range schema.Value.AllOf {
-			item, e := d.parseValue(v, sr)
+			item, e := parseValue(v, sr)
 			if e != nil {
 				return nil, e
 			}
@@ -600,7 +601,7 @@ func (d *urlValuesDecoder) parseValue(v string, schema *openapi3.SchemaRef) (any
 		var value any
 		var err error
 		for _, sr := range schema.Value.AnyOf {
-			if value, err = d.parseValue(v, sr); err == nil {
+			if value, err = parseValue(v, sr); err == nil {
 				return value, nil
 			}
 		}
@@ -613,7 +614,7 @@ func (d *urlValuesDecoder) parseValue(v string, schema *openapi3.SchemaRef) (any
 		var value any
 		var err error
 		for _, sr := range schema.Value.OneOf {
-			result, err := d.parseValue(v, sr)
+			result, err := parseValue(v, sr)
 			if err == nil {
 				value = result
 				isMatched++
@@ -1156,7 +1157,7 @@ func pathFromKeys(kk []string) []any {
 func parseArray(raw []string, schemaRef *openapi3.SchemaRef) ([]any, error) {
 	var value []any
 	for i, v := range raw {
-		item, err := parsePrimitive(v, schemaRef.Value.Items)
+		item, err := parseValue(v, schemaRef.Value.Items)
 		if err != nil {
 			if v, ok := err.(*ParseError); ok {
 				return nil, &ParseError{path: []any{i}, Cause: v}
